@@ -132,12 +132,12 @@ theorem C18_constrainLimits (R : Rounding) (amb : Nat) (v l u : Val) (hlu : num 
       | exact le_antisymm (by linarith) (by linarith)
       | linarith
 
-/-- 2-D test = the tolerant checker on each coordinate (both compute the same `upper + tol`,
-`lower - tol`, so this holds for every rounding whose band contains the range) -/
+/-- 2-D test = the tolerant checker on each coordinate, for **every** rounding of the tolerance band — since the repair
+F14 (`point_in_bounds` tests the bound itself before the band, as `checkLimitsTol` does) no hypothesis on the band is
+needed any more: before it, the statement required the computed band to contain the range, which fails for an integer
+bound above `2^53` with a float tolerance. -/
 theorem C18_point_in_bounds (R : Rounding) (amb : Nat) (x y x0 y0 x1 y1 t : Val)
-    (hx : num x0 ≤ num x1) (hy : num y0 ≤ num y1)
-    (bx1 : num x1 ≤ num (Py.add R amb x1 t)) (bx0 : num (Py.sub R amb x0 t) ≤ num x0)
-    (by1 : num y1 ≤ num (Py.add R amb y1 t)) (by0 : num (Py.sub R amb y0 t) ≤ num y0) :
+    (hx : num x0 ≤ num x1) (hy : num y0 ≤ num y1) :
     ∃ rx fx ry fy, Gen.checkLimitsTol R amb x x0 x1 t = .tup [rx, .bool_ fx] ∧
       Gen.checkLimitsTol R amb y y0 y1 t = .tup [ry, .bool_ fy] ∧
       Gen.point_in_bounds R amb (.tup [x, y]) (.tup [.tup [x0, y0], .tup [x1, y1]]) t
@@ -150,13 +150,17 @@ theorem C18_point_in_bounds (R : Rounding) (amb : Nat) (x y x0 y0 x1 y1 t : Val)
   by_cases b3 : num y < num y0 <;> by_cases b4 : num y < num (sub R amb y0 t) <;>
   first
     | (exfalso; linarith)
-    | (simp only [a1, a2, a3, a4, b1, b2, b3, b4, decide_true, decide_false, Bool.false_eq_true, if_true, if_false]
+    | (simp only [a1, a2, a3, a4, b1, b2, b3, b4, decide_true, decide_false, Bool.false_eq_true, if_true, if_false,
+         Bool.and_true, Bool.and_false, Bool.true_and, Bool.false_and]
        exact ⟨_, _, _, _, rfl, rfl, rfl⟩)
 
-/-- non-vacuity: the hypotheses are met by concrete mixed int/float arguments, ideal arithmetic -/
-example : Numeric (.flt (3/2)) ∧ Numeric (.int 0) ∧ num (.int 0) ≤ num (.int 1) ∧ (0:Rat) ≤ num (.flt (1/2)) ∧
-    num (.int 1) ≤ num (Py.add Rounding.exact 53 (.int 1) (.flt (1/2))) := by
-  simp [Numeric, Py.num, Py.add, Py.pack, Py.join, Py.kind, Rounding.exact]
+/-- non-vacuity and the F14 witness: a point exactly on an integer bound above `2^53`, float tolerance `1e-9` (here as
+any rounding): in bounds -/
+example (R : Rounding) : Gen.point_in_bounds R 53 (.tup [.int (2 ^ 53 + 1), .int 0])
+    (.tup [.tup [.int 0, .int 0], .tup [.int (2 ^ 53 + 1), .int 1]]) (.flt (1 / 10 ^ 9)) = .bool_ true := by
+  unfold Gen.point_in_bounds
+  simp only [Py.unpackN_tup2, Py.getItem_cons_zero, Py.getItem_cons_succ, Py.gt, Py.lt, Py.num]
+  norm_num
 
 
 end Plotink
